@@ -433,9 +433,12 @@ def rule_order(rep: Report, rid="C03.order") -> None:
     # list-valued fields keep collection order: no sorting / reversing / set conversion anywhere in the builder
     bad = []
     for br in b.branches.values():
-        for t in b.branch_terms(br):
-            if t[0] == "call" and t[1] in ("sorted", "reversed", "set", "frozenset", ".sort", ".reverse"):
-                bad.append((br.rule, fmt(t, I)))
+        # only what reaches the returned value matters: a reversed() that merely drives a scan reorders nothing
+        seen: set = set()
+        for v, _line, _gs in br.returns:
+            for t in b.deep_terms(v, seen):
+                if t[0] == "call" and t[1] in ("sorted", "reversed", "set", "frozenset", ".sort", ".reverse"):
+                    bad.append((br.rule, fmt(t, I)))
         for n, ctx in nf.iter_nodes(br.tree):
             if n[0] == "mutate" and n[2] in ("sort", "reverse", "insert"):
                 bad.append((br.rule, f"{n[2]} at line {n[4]}"))
@@ -470,38 +473,69 @@ def rule_desc(rep: Report, rid="C03.desc") -> None:
            expected="'\\n'.join(token.matched_text for token in <tokens>)", found=found)
     if not ok_join:
         return
-    # the token list: a fresh copy of the Other tokens from which only a trailing run is popped
+    # the token list: a fresh copy of the Other tokens from which only a trailing run of blank lines is removed
+    cut = None
+    if src_list[0] == "slice" and src_list[2] == NONE and src_list[4] == NONE:
+        cut = src_list[3]           # form B: tokens[:keep]
+        src_list = src_list[1]
     o = I.obj(src_list)
     base_ok = isinstance(o, HList) and [b.c(s[1]) if s[0] == "s" else None for s in o.segs] == [items(b.node, "Other")]
     rep.ob(rid, "the lines are the node's #Other tokens (comments were diverted by build)", base_ok, **_kw(b, br.line),
            expected="list(node.get_tokens('Other'))", found=fmt(src_list, I))
+
+    def blankness(p, text):
+        """'blank' / 'nonblank' / 'empty' / 'nonempty' when p tests that of ``text``."""
+        strip = ("call", ".strip", (text,), ())
+        blank = [mk_not(strip), ("call", ".isspace", (text,), ()), ("cmp", "Eq", strip, const(""))]
+        if p in blank:
+            return "blank"
+        if p[0] == "bool" and p[1] == "or" and set(p[2]) == {mk_not(text), ("call", ".isspace", (text,), ())}:
+            return "blank"
+        if mk_not(p) in blank or p == strip:
+            return "nonblank"
+        if p == mk_not(text) or p == ("cmp", "Eq", text, const("")):
+            return "empty"
+        if p == text:
+            return "nonempty"
+        return None
+
     muts = [(n, ctx) for n, ctx in nf.iter_nodes(br.tree) if n[0] == "mutate" and n[1] == src_list]
     loops = [n for n, ctx in nf.iter_nodes(br.tree) if n[0] == "loop" and I.loops[n[1]].get("kind") == "while"]
     trim_ok = False
     pred_kind = None
     detail = None
-    if len(muts) == 1 and muts[0][0][2] == "pop" and muts[0][0][3] == () and len(loops) == 1:
+    if cut is None and len(muts) == 1 and muts[0][0][2] == "pop" and muts[0][0][3] == () and len(loops) == 1:
+        # form A: while tokens and <blank(tokens[-1].matched_text)>: tokens.pop()
         lid = loops[0][1]
         in_loop = nf.loops_in_ctx(muts[0][1]) == [lid] and not nf.guards_in_ctx(muts[0][1])
         test = I.loops[lid].get("test")
         detail = fmt(test, I)
         last_text = ("attr", ("item", src_list, const(-1)), "matched_text")
-        # while tokens and <blank(tokens[-1].matched_text)>
         if in_loop and test is not None and test[0] == "bool" and test[1] == "and" and len(test[2]) == 2 and test[2][0] == src_list:
-            p = test[2][1]
-            blank_forms = [
-                mk_not(("call", ".strip", (last_text,), ())),
-                ("call", ".isspace", (last_text,), ()),
-                ("cmp", "Eq", ("call", ".strip", (last_text,), ()), const("")),
-            ]
-            if p in blank_forms:
-                pred_kind = "blank"
-                trim_ok = True
-            elif p == mk_not(last_text) or p == ("cmp", "Eq", last_text, const("")):
-                pred_kind = "empty"
-            elif p[0] == "bool" and p[1] == "or" and set(p[2]) == {mk_not(last_text), ("call", ".isspace", (last_text,), ())}:
-                pred_kind = "blank"
-                trim_ok = True
+            pred_kind = blankness(test[2][1], last_text)
+            trim_ok = pred_kind == "blank"
+    elif cut is not None and not muts and cut[0] == "loopout":
+        # form B: keep = len(tokens); for t in reversed(tokens): if <nonblank(t.matched_text)>: break; keep -= 1
+        lid, var = cut[1], cut[2]
+        info = I.loops.get(lid, {})
+        el_text = ("attr", ("elem", lid), "matched_text")
+        node = next((n for n, ctx in nf.iter_nodes(br.tree) if n[0] == "loop" and n[1] == lid), None)
+        breaks = [(n, ctx) for n, ctx in nf.iter_nodes(node[2])] if node else []
+        brk = [(n, ctx) for n, ctx in breaks if n[0] == "break"]
+        phi = ("phi", lid, var)
+        detail = f"scan over {fmt(info.get('iter'), I)}, count from {fmt(info.get('carried_init', {}).get(var), I)}"
+        if info.get("kind") == "for" and info.get("iter") == ("call", "reversed", (src_list,), ()) \
+                and info.get("carried_init", {}).get(var) == ("call", "len", (src_list,), ()) \
+                and info.get("carried", {}).get(var) == ("binop", "Sub", phi, const(1)) \
+                and info.get("break_env", {}).get(var, phi) == phi and len(brk) == 1 \
+                and not any(n[0] in ("continue", "return", "raise") for n, _ in breaks):
+            gs = nf.guards_in_ctx(brk[0][1])
+            if len(gs) == 1:
+                kind = blankness(gs[0][0], el_text)
+                if not gs[0][1] and kind:
+                    kind = {"blank": "nonblank", "nonblank": "blank", "empty": "nonempty", "nonempty": "empty"}[kind]
+                pred_kind = {"nonblank": "blank", "nonempty": "empty"}.get(kind)   # what is dropped
+                trim_ok = kind == "nonblank"
     rep.ob(rid, "only trailing blank (whitespace-only) lines are dropped, from the end, while there are lines", trim_ok, **_kw(b, br.line),
            expected="while tokens and not tokens[-1].matched_text.strip(): tokens.pop()",
            found=(f"trailing trim tests {pred_kind or 'an unrecognised predicate'}: {detail}" if detail else f"{len(muts)} mutation(s), {len(loops)} while loop(s)"),
@@ -519,29 +553,43 @@ def rule_tags_ast(rep: Report, rid="C08.ast") -> None:
         mr = _main_return(b, br) if br else None
         d = _dict_of(b, mr[0]) if mr else None
         tv = nf.strip_dropnone(d["tags"][0]) if d and "tags" in d else None
-        if tv is None or tv[0] != "ref":
+        if tv is None or tv[0] not in ("ref", "cond"):
             rep.ob(rid, f"{p}.tags is a list built from the element's tag lines", False, **_kw(b, br.line if br else None),
                    expected="list", found=fmt(tv, I) if tv else "missing")
             continue
-        segs = nf.flatten_segs(I, nf.list_content(I, tv, b.tree), b.tree)
-        # tolerate the 'no Tags child' early return: the list may be returned empty under that guard
-        ok = False
+        segs = nf.map_seg_tests(nf.flatten_segs(I, nf.value_segs(I, tv, b.tree), b.tree), b.c)
         found = [fmt_seg(s, I) for s in segs]
-        if len(segs) == 1 and segs[0][0] == "if" and not segs[0][3] and b.c(segs[0][1]) == single(owner, "Tags"):
-            segs = segs[0][2]       # 'no Tags child -> no tags' guard
-        if len(segs) == 1 and segs[0][0] == "loop":
-            l1 = segs[0][1]
-            it1 = b.c(I.loops[l1].get("iter"))
-            inner = segs[0][2]
-            if it1 == items(single(owner, "Tags"), "TagLine") and len(inner) == 1 and inner[0][0] == "loop" and not I.loops[l1].get("conds"):
-                l2 = inner[0][1]
-                it2 = I.loops[l2].get("iter")
-                e = inner[0][2]
-                if it2 == ("attr", ("elem", l1), "matched_items") and len(e) == 1 and e[0][0] == "e" and not I.loops[l2].get("conds"):
-                    td = nf.resolve_ref_dict(I, e[0][1], b.tree)
-                    if td and set(td) == {"id", "location", "name"}:
-                        ok = td["name"][0] == ("item", ("elem", l2), const("text")) and td["id"][0][0] == "drawn"
-                        found = {k: fmt(v[0], I) for k, v in td.items()}
+        # the list may be guarded by 'there is a Tags child' (early return / conditional): decide per case
+        has_child = [("items", owner, "Tags"), ("first", owner, "Tags"), single(owner, "Tags")]
+
+        def tag_loop(segs):
+            nonlocal found
+            if len(segs) == 1 and segs[0][0] == "loop":
+                l1 = segs[0][1]
+                it1 = b.c(I.loops[l1].get("iter"))
+                inner = segs[0][2]
+                if it1 == items(single(owner, "Tags"), "TagLine") and len(inner) == 1 and inner[0][0] == "loop" and not I.loops[l1].get("conds"):
+                    l2 = inner[0][1]
+                    it2 = I.loops[l2].get("iter")
+                    e = inner[0][2]
+                    if it2 == ("attr", ("elem", l1), "matched_items") and len(e) == 1 and e[0][0] == "e" and not I.loops[l2].get("conds"):
+                        td = nf.resolve_ref_dict(I, e[0][1], b.tree)
+                        if td and set(td) == {"id", "location", "name"}:
+                            found = {k: fmt(v[0], I) for k, v in td.items()}
+                            return td["name"][0] == ("item", ("elem", l2), const("text")) and td["id"][0][0] == "drawn"
+            return False
+
+        cases = nf.seg_cases(segs)
+        ok = bool(cases)
+        for assign, sg in cases or []:
+            if set(assign) - set(has_child):
+                ok = False
+                break
+            present = all(v for v in assign.values())
+            if present:
+                ok = ok and tag_loop(sg)
+            else:
+                ok = ok and sg == []      # no Tags child -> no tags
         rep.ob(rid, f"{p}.tags are the items of the TagLine tokens of its own Tags child, token then item order, name = item text", ok,
                **_kw(b, mr[1]), expected=f"for token in {fmt(items(single(owner, 'Tags'), 'TagLine'), I)}: for item in token.matched_items: {{id, location, name: item.text}}",
                found=found)
@@ -619,13 +667,35 @@ def rule_rect(rep: Report, rid="C12.rect") -> None:
         detail = []
         for n, ctx in raises:
             loops = nf.loops_in_ctx(ctx)
+            gs = nf.guards_in_ctx(ctx)
+            firsts = [g[0][2] for g in gs if g[1] is False and g[0][0] == "cmp" and g[0][1] == "Is" and g[0][3] == NONE and g[0][2][0] == "firstof"]
+            if not loops and len(firsts) == 1 and firsts[0][3] == NONE and firsts[0][2] == ("elem", firsts[0][1]):
+                # ``bad = next((row for row in rows if <differs>), None); if bad is not None: raise ...(bad.location)``:
+                # the same first-deviating-row scan, written as a search
+                fst = firsts[0]
+                li = I.loops[fst[1]]
+                el = ("elem", fst[1])
+                first_count = ("call", "len", (("item", ("item", rows, const(0)), const("cells")),), ())
+                this_count = ("call", "len", (("item", el, const("cells")),), ())
+                conds = tuple(nf.norm_guard(c, True) for c in li.get("conds") or ())
+                exc = n[1]
+                loc = None
+                for m2, c2 in nf.iter_nodes(br.tree):
+                    if m2[0] == "setattr" and m2[1] == exc and m2[2] == "location":
+                        loc = m2[3]
+                ok = li.get("iter") == rows and conds in (((("cmp", "Eq", this_count, first_count), False),), ((("cmp", "Eq", first_count, this_count), False),)) \
+                    and loc == ("item", fst, const("location"))
+                exc_cls = I.obj(exc).cls.name if isinstance(I.obj(exc), HInst) else None
+                detail.append({"searches": fmt(li.get("iter"), I), "for": [(fmt(c, I), p2) for c, p2 in conds], "location": fmt(loc, I) if loc else None, "exception": exc_cls})
+                if ok and exc_cls == "AstBuilderException":
+                    good += 1
+                continue
             if not loops:
                 detail.append("raise outside a row loop")
                 continue
             lid = loops[-1]
             li = I.loops[lid]
             el = ("elem", lid)
-            gs = nf.guards_in_ctx(ctx)
             first_count = ("call", "len", (("item", ("item", rows, const(0)), const("cells")),), ())
             this_count = ("call", "len", (("item", el, const("cells")),), ())
             differs = [(("cmp", "Eq", this_count, first_count), False), (("cmp", "Eq", first_count, this_count), False)]
